@@ -36,7 +36,8 @@ type verifC15Suite struct {
 var _ = Suite(&verifC15Suite{})
 
 type c15rOp struct {
-	K     string `json:"k"` // hold proceed tick update revert refreshed
+	K     string `json:"k"` // hold proceed tick update revert refreshed refresh-all
+	Auto  bool   `json:"auto,omitempty"` // refresh-all: with Flags.IsAutoRefresh
 	G     int    `json:"g,omitempty"`
 	Snaps []int  `json:"snaps,omitempty"`
 	Busy  []int  `json:"busy,omitempty"` // snaps that have running apps during this request
@@ -91,6 +92,12 @@ func c15rGen(r *vh.Rand, tier string, n int) []c15rIn {
 		out = append(out, c15rIn{Ops: []c15rOp{hold(1, 2), hold(2, 1), tick(c15rH), {K: "update", Snaps: []int{1, 2}, Busy: []int{b}}, hold(1, 2), hold(2, 1),
 			tick(47*c15rH + 1)}})
 	}
+	// a refresh of all snaps (general / auto) goes on exactly with the snaps that are not held at its level: gating snaps hold
+	// for auto-refreshes only, the clock passes the 48 h bound in between
+	for _, auto := range []bool{false, true} {
+		ra := c15rOp{K: "refresh-all", Auto: auto}
+		out = append(out, c15rIn{Ops: []c15rOp{ra, hold(2, 1), hold(3, 3), ra, tick(47 * c15rH), ra, tick(c15rH + 1), ra, hold(2, 1), ra}})
+	}
 	// a request that conflicts with a change in progress
 	out = append(out, c15rIn{Ops: []c15rOp{{K: "update", Snaps: []int{1}, Keep: true}, hold(2, 1), tick(c15rH), {K: "update", Snaps: []int{1}},
 		{K: "revert", Snaps: []int{1}}, hold(2, 1), tick(47 * c15rH), hold(2, 1), tick(1), hold(2, 1)}})
@@ -135,6 +142,8 @@ func c15rGen(r *vh.Rand, tier string, n int) []c15rIn {
 				h.Ops = append(h.Ops, op)
 			case x < 77:
 				h.Ops = append(h.Ops, c15rOp{K: "refreshed", S: r.Range(1, 3)})
+			case x < 85 && multi:
+				h.Ops = append(h.Ops, c15rOp{K: "refresh-all", Auto: r.Bool()})
 			default:
 				h.Ops = append(h.Ops, tick(ticks[r.Intn(len(ticks))]))
 			}
@@ -257,6 +266,32 @@ func (s *verifC15Suite) exec(c *C, in c15rIn) vh.Out {
 			t := now
 			snapst.LastRefreshTime = &t
 			snapstate.Set(st, c15rNames[op.S], &snapst)
+		case "refresh-all":
+			var flags *snapstate.Flags
+			if op.Auto {
+				flags = &snapstate.Flags{IsAutoRefresh: true}
+			}
+			updated, tss, err := snapstate.UpdateMany(context.Background(), st, nil, nil, s.user.ID, flags)
+			if err != nil {
+				panic(fmt.Sprintf("refresh-all: %T %v", err, err))
+			}
+			var ids []int
+			for _, n := range updated {
+				ids = append(ids, c15rIDs[n])
+			}
+			sort.Ints(ids)
+			chg := st.NewChange("refresh-snap", "verif")
+			for _, ts := range tss {
+				if ts != nil {
+					chg.AddAll(ts)
+				}
+			}
+			for _, t := range chg.Tasks() {
+				t.SetStatus(state.DoneStatus)
+			}
+			// every installed snap has an update in the fake store
+			coqOp = fmt.Sprintf("(RefreshAll %s [1%%N; 2%%N; 3%%N] %s)", vh.CoqBool(op.Auto), c15rNs(ids))
+			jsRes = fmt.Sprintf("updated %v", ids)
 		case "update", "revert":
 			for k := range busy {
 				delete(busy, k)
